@@ -63,7 +63,11 @@ def decodeIntegerValuesEb (kind numEntries nc attComponents : Nat) (md : MeshDat
   let ver ← version
   let pre20 := ver < bsVersion 2 0
   let pre22 := ver < bsVersion 2 2
+  let rem0 ← remaining
   let method ← rdI8
+  -- position of the method byte, counted from the end of the stream (for the generators of
+  -- tools/props/legacycases.py that patch scheme ids)
+  tag s!"at:method={method}:{rem0}"
   require (decide (Generated.PREDICTION_NONE ≤ method) && decide (method < Generated.NUM_PREDICTION_SCHEMES))
   let mut scheme := Scheme.none
   let mut unsupp := ""
@@ -160,6 +164,8 @@ def decodeIntegerValuesEb (kind numEntries nc attComponents : Nat) (md : MeshDat
     tag s!"pred:constrained_multi:max_parallelograms={maxPar}"
     pure r
   | .texCoords =>
+    let rem1 ← remaining
+    tag s!"at:orientations:{rem1}"
     let numOrient ← rdI32
     require (decide (numOrient ≥ 0))
     -- not more orientations than corners (`fix:` commit 008c24a)
